@@ -24,6 +24,41 @@
 #include "support.h"
 #include "vsched/vsched.h"
 
+// Executions share one process (fork is very expensive in this sandbox), so the process-global tables are
+// rolled back to their start-up content before every execution.  This harness TU looks into the private
+// members of GlobalTable for that purpose only; the code under test is the unmodified engine_plugin.cc.
+#define private public
+#include "engine/engine_global_table.h"
+#undef private
+
+using mujoco::GlobalTable;
+using mujoco::TableBlock;
+
+static int g_base_plugins = -1, g_base_providers = -1;
+
+template <typename T>
+static void rollback_table(int base) {
+  GlobalTable<T>& t = GlobalTable<T>::GetSingleton();
+  int n = t.count_.load();
+  TableBlock<T>* block = &t.first_block_;
+  int local = 0;
+  for (int i = 0; i < n; i++, local++) {
+    if (local == TableBlock<T>::kBlockSize) { local = 0; block = block->next; if (!block) break; }
+    if (i >= base) std::memset(&block->objects[local], 0, sizeof(T));
+  }
+  // forget blocks that hold no surviving object (they are leaked: a few hundred bytes per execution)
+  block = &t.first_block_;
+  for (int i = TableBlock<T>::kBlockSize; i < base; i += TableBlock<T>::kBlockSize) block = block->next;
+  if (block) block->next = nullptr;
+  t.count_.store(base);
+}
+
+static void reset_tables() {
+  if (g_base_plugins < 0) { g_base_plugins = mjp_pluginCount(); g_base_providers = mjp_resourceProviderCount(); }
+  rollback_table<mjpPlugin>(g_base_plugins);
+  rollback_table<mjpResourceProvider>(g_base_providers);
+}
+
 static const char* kAttrA[] = {"alpha", "beta"};
 static const char* kAttrB[] = {"gamma"};
 
@@ -122,6 +157,7 @@ static void reader(int prefill, int passes) {
 }
 
 static void body() {
+  reset_tables();
   int prefill = g_prefill;
   // sequential prefill (inside the controlled execution, single thread: cheap)
   static char names[64][16];
@@ -252,6 +288,7 @@ static int run_seq_history(const std::string& h) {
 int main(int argc, char** argv) {
   if (argc < 2) return 2;
   vg_install_handlers();
+  reset_tables();   // learn the start-up content of the tables outside any controlled execution
   std::string mode = argv[1];
   vsched::Options opt;
   if (mode == "explore" || mode == "replay") {
@@ -286,21 +323,16 @@ int main(int argc, char** argv) {
       std::string h;
       long c = code;
       for (int i = 0; i < depth; i++) { h += kSeqAlphabet[c % A]; c /= A; }
-      fflush(stdout);
-      pid_t pid = fork();
-      if (pid == 0) {
-        static char names[64][16];
-        for (int i = mjp_pluginCount(); i < prefill; i++) {
-          std::snprintf(names[i], sizeof(names[i]), "filler%d", i);
-          mjpPlugin p; mjp_defaultPlugin(&p); p.name = names[i];
-          mjp_registerPlugin(&p);
-        }
-        _exit(run_seq_history(h));
+      // in-process: the tables are rolled back to their start-up content before every history
+      reset_tables();
+      static char names[64][16];
+      for (int i = mjp_pluginCount(); i < prefill; i++) {
+        std::snprintf(names[i], sizeof(names[i]), "filler%d", i);
+        mjpPlugin p; mjp_defaultPlugin(&p); p.name = names[i];
+        mjp_registerPlugin(&p);
       }
-      int st = 0;
-      waitpid(pid, &st, 0);
+      int rc = run_seq_history(h);
       nrun++;
-      int rc = WIFEXITED(st) ? WEXITSTATUS(st) : 100 + (WIFSIGNALED(st) ? WTERMSIG(st) : 0);
       if (rc != 0) {
         if (nfail++ < 5) std::printf("SEQFAIL %s rule=%d\n", h.c_str(), rc);
       }
